@@ -56,16 +56,18 @@ Init == /\ m = M0 /\ main = <<>> /\ bodies = <<>> /\ open = <<>> /\ plan = NoPla
         /\ feat \in Feats /\ dw \in DWs /\ nw \in NWs
         /\ ls \in SizesFor(feat, "l") /\ gs \in SizesFor(feat, "g")
 
-\* A behaviour dedicated to one operator uses it on top of a small base vocabulary, so that a
-\* disagreement with the implementation can be attributed; "mix" behaviours use everything.
+\* subroutine numbers worth calling: around the bias and the number-encoding thresholds
 CandIdx(size) ==
   {i \in {0, 1, 106, 107, 108, 214, 215, 216, 1022, 1023, 1130, 1131, 1132, 1238, 1239,
           2262, 2263, 30768, 32767, 32768, 33898, 33899, 34000, 34768, 39999, size - 1, size \div 2} :
-     i >= 0 /\ i < size /\ Abs(i - Bias(size)) * Unit <= MaxV}
+     i >= 0 /\ i < size /\ Abs(i - Bias(size)) <= MaxV \div Unit}
 
 IdxNow(size) == IF Sim THEN CandIdx(size)
                 ELSE {i \in CandIdx(size) : i \in {0, Bias(size) + 108, size - 1}}
 CallOp(k) == IF k = "l" THEN "callsubr" ELSE "callgsubr"
+
+\* A behaviour dedicated to one operator uses it on top of a small base vocabulary, so that a
+\* disagreement with the implementation can be attributed; "mix" behaviours use everything.
 BaseOps   == MoveOps \cup {"rlineto", "endchar"}
 BaseArith == {"add", "sub", "drop", "exch"}
 CallFeats == {"callsubr", "callgsubr", "deep10"}
@@ -289,7 +291,7 @@ FNoEndchar ==
 FBadSubr ==
   /\ "badsubr" \in Faults /\ Running /\ Len(m.stack) < MaxStack
   /\ \E k \in {"l", "g"} : \E i \in Pick({-1, Size(k), Size(k) + 1, -Bias(Size(k)) - 1, Size(k) + 500}) :
-       /\ Abs(i - Bias(Size(k))) * Unit <= MaxV + Unit
+       /\ Abs(i - Bias(Size(k))) <= MaxV \div Unit + 1
        /\ Faulted("badsubr", <<Num((i - Bias(Size(k))) * Unit), Op(CallOp(k))>>)
 
 \* a drawing operator with a legal operand count before the first moveto
